@@ -267,3 +267,32 @@ func VerifH_C20_FailedPackLeavesNoTrace() {
 	m2 := mk("m2")
 	vRoundTrip(m2)
 }
+
+// VerifH_C02_CompressedInput: "incoming compression pointers in names and RDATA": a wire message as an upstream sends
+// it — question x.y; CNAME owned by a pointer to the question name with target z + pointer to the suffix y; MX owned
+// by a pointer INTO the CNAME's RDATA with exchange = pointer to the question name (x, y, z arbitrary octets, arbitrary
+// TTLs and preference) — is accepted, decodes to exactly the names an independent decoder sees, and re-encodes (with
+// and without compression) to wire data that both decoders read back identically (vRoundTrip).
+func VerifH_C02_CompressedInput() {
+	verifrt.Unwind(80)
+	x, y, z := verifrt.Byte("x"), verifrt.Byte("y"), verifrt.Byte("z")
+	t1, t2 := verifrt.BytesN("ttl1", 4), verifrt.BytesN("ttl2", 4)
+	pref := verifrt.BytesN("pref", 2)
+	wire := []byte{0x12, 0x34, 0x81, 0x80, 0, 1, 0, 2, 0, 0, 0, 0,
+		1, x, 1, y, 0, 0, 5, 0, 1, // 12: question x.y CNAME IN
+		0xC0, 12, 0, 5, 0, 1, t1[0], t1[1], t1[2], t1[3], 0, 4, 1, z, 0xC0, 14, // 21: CNAME, rdata at 33: z + ->y
+		0xC0, 33, 0, 15, 0, 1, t2[0], t2[1], t2[2], t2[3], 0, 4, pref[0], pref[1], 0xC0, 12} // 37: MX owned by z.y, exchange -> x.y
+	m := NewMsg()
+	err := m.Unpack(wire)
+	verifrt.Assert(err == nil, "a message using compression pointers in owner names and RDATA is accepted")
+	verifrt.Reach("accepted")
+	xy, zy := []byte{1, x, 1, y}, []byte{1, z, 1, y}
+	verifrt.Assert(len(m.Questions) == 1 && len(m.Answers) == 2, "sections as sent")
+	verifrt.Assert(verifrt.EqBytes(m.Questions[0].Name, xy), "question name")
+	c, ok := m.Answers[0].(*NAMEResource)
+	verifrt.Assert(ok && verifrt.EqBytes(c.Name, xy) && verifrt.EqBytes(c.NameData, zy), "CNAME owner and target decompressed")
+	verifrt.Assert(c.TTL == refU32(t1, 0) && c.Type == TypeCNAME && c.Class == 1, "CNAME header fields")
+	mx, ok := m.Answers[1].(*MX)
+	verifrt.Assert(ok && verifrt.EqBytes(mx.Name, zy) && verifrt.EqBytes(mx.MX, xy) && mx.Pref == refU16(pref, 0) && mx.TTL == refU32(t2, 0), "MX owner (pointer into RDATA), exchange and numbers")
+	vRoundTrip(m)
+}
